@@ -26,7 +26,8 @@ EXPLANATION = ("Proved in Lean for every expression tree of any depth over the e
                "operators, casts, calls, subscripts, member access are modelled and correspondence-checked, theorems cover them only "
                "partially; new/delete, lambdas, _Generic, initializer lists, templates, keywords are outside the model.")
 THEOREMS = ["Cppcheck.AstLadder.extracted_table_is_C", "Cppcheck.AstLadder.extracted_ladder_wf",
-            "Cppcheck.AstLadder.createAst_follows_grammar", "Cppcheck.AstLadder.createAst_follows_grammar_extracted",
+            "Cppcheck.AstLadder.createAst_follows_grammar", "Cppcheck.AstLadder.createAst_follows_grammar_counterexample",
+            "Cppcheck.AstLadder.createAst_follows_grammar_extracted",
             "Cppcheck.AstLadder.ladder_roundtrip", "Cppcheck.AstLadder.ladder_respects_parens",
             "Cppcheck.AstLadder.ternary_middle_as_parenthesised", "Cppcheck.AstLadder.assign_right_assoc"]
 MODULES = ["Cppcheck.Props.C07"]
